@@ -14,11 +14,66 @@ Check c03_fetch_roundtrip : forall v w, enc_fetch v w -> forall rest, parse (w +
 Print Assumptions c03_fetch_roundtrip.
 
 (* other untagged data: n EXISTS / n RECENT / n EXPUNGE, VANISHED [(EARLIER)] with a sequence set in any order of
-   range ends, QUOTA with its resources (name, usage, limit in their slots; one or more SP / HTAB between parts) *)
+   range ends, QUOTA with its resources (name, usage, limit in their slots; one or more SP / HTAB between parts),
+   STATUS mailbox (items), LIST / LSUB (name attributes classified whatever their case, delimiter or NIL, mailbox) *)
 Theorem c03_data_roundtrip : forall v w, enc_data_response v w -> forall rest, parse (w ++ rest) = ROk rest v (nlen w).
 Proof. exact data_roundtrip. Qed.
 Check c03_data_roundtrip : forall v w, enc_data_response v w -> forall rest, parse (w ++ rest) = ROk rest v (nlen w).
 Print Assumptions c03_data_roundtrip.
+
+(* SEARCH / SORT with any number of ids and tolerated trailing spaces; STATUS (mailbox in any astring form, INBOX
+   case-folded; item list) is part of c03_data_roundtrip; CAPABILITY with IMAP4rev1 / AUTH=mech / atoms *)
+Theorem c03_id_list_roundtrip : forall v w, enc_id_list_response v w -> forall rest, parse (w ++ rest) = ROk rest v (nlen w).
+Proof. exact id_list_roundtrip. Qed.
+Check c03_id_list_roundtrip : forall v w, enc_id_list_response v w -> forall rest, parse (w ++ rest) = ROk rest v (nlen w).
+Print Assumptions c03_id_list_roundtrip.
+
+Theorem c03_capability_roundtrip : forall v body sp, enc_capability_data v body -> enc_spaces sp -> forall rest,
+  parse ((bs "* " ++ body ++ sp ++ [13; 10]) ++ rest) = ROk rest v (nlen (bs "* " ++ body ++ sp ++ [13; 10])).
+Proof. exact capability_roundtrip. Qed.
+Check c03_capability_roundtrip : forall v body sp, enc_capability_data v body -> enc_spaces sp -> forall rest,
+  parse ((bs "* " ++ body ++ sp ++ [13; 10]) ++ rest) = ROk rest v (nlen (bs "* " ++ body ++ sp ++ [13; 10])).
+Print Assumptions c03_capability_roundtrip.
+
+(* ENABLED atoms; QUOTAROOT mailbox and root names; MYRIGHTS mailbox and the rights, one value per character *)
+Theorem c03_enabled_roundtrip : forall v body sp, enc_enabled_data v body -> enc_spaces sp -> forall rest,
+  parse ((bs "* " ++ body ++ sp ++ [13; 10]) ++ rest) = ROk rest v (nlen (bs "* " ++ body ++ sp ++ [13; 10])).
+Proof. exact enabled_roundtrip. Qed.
+Check c03_enabled_roundtrip : forall v body sp, enc_enabled_data v body -> enc_spaces sp -> forall rest,
+  parse ((bs "* " ++ body ++ sp ++ [13; 10]) ++ rest) = ROk rest v (nlen (bs "* " ++ body ++ sp ++ [13; 10])).
+Print Assumptions c03_enabled_roundtrip.
+
+Theorem c03_quotaroot_roundtrip : forall v body sp, enc_quotaroot v body -> enc_spaces sp -> forall rest,
+  parse ((bs "* " ++ body ++ sp ++ [13; 10]) ++ rest) = ROk rest v (nlen (bs "* " ++ body ++ sp ++ [13; 10])).
+Proof. exact quotaroot_roundtrip. Qed.
+Check c03_quotaroot_roundtrip : forall v body sp, enc_quotaroot v body -> enc_spaces sp -> forall rest,
+  parse ((bs "* " ++ body ++ sp ++ [13; 10]) ++ rest) = ROk rest v (nlen (bs "* " ++ body ++ sp ++ [13; 10])).
+Print Assumptions c03_quotaroot_roundtrip.
+
+Theorem c03_myrights_roundtrip : forall v body sp, enc_myrights v body -> enc_spaces sp -> forall rest,
+  parse ((bs "* " ++ body ++ sp ++ [13; 10]) ++ rest) = ROk rest v (nlen (bs "* " ++ body ++ sp ++ [13; 10])).
+Proof. exact myrights_roundtrip. Qed.
+Check c03_myrights_roundtrip : forall v body sp, enc_myrights v body -> enc_spaces sp -> forall rest,
+  parse ((bs "* " ++ body ++ sp ++ [13; 10]) ++ rest) = ROk rest v (nlen (bs "* " ++ body ++ sp ++ [13; 10])).
+Print Assumptions c03_myrights_roundtrip.
+
+(* ACL mailbox with any number of (identifier, rights) entries; LISTRIGHTS mailbox identifier required-rights and the
+   optional rights flattened in the order sent; spaces or tabs before CRLF tolerated *)
+Theorem c03_acl_roundtrip : forall v w, enc_acl_response v w -> forall rest, parse (w ++ rest) = ROk rest v (nlen w).
+Proof. exact acl_roundtrip. Qed.
+Check c03_acl_roundtrip : forall v w, enc_acl_response v w -> forall rest, parse (w ++ rest) = ROk rest v (nlen w).
+Print Assumptions c03_acl_roundtrip.
+
+Theorem c03_listrights_roundtrip : forall v w, enc_listrights_response v w -> forall rest, parse (w ++ rest) = ROk rest v (nlen w).
+Proof. exact listrights_roundtrip. Qed.
+Check c03_listrights_roundtrip : forall v w, enc_listrights_response v w -> forall rest, parse (w ++ rest) = ROk rest v (nlen w).
+Print Assumptions c03_listrights_roundtrip.
+
+(* continuation requests `+ SP resp-text CRLF` *)
+Theorem c03_continue_roundtrip : forall v w, enc_continue_response v w -> forall rest, parse (w ++ rest) = ROk rest v (nlen w).
+Proof. exact continue_roundtrip. Qed.
+Check c03_continue_roundtrip : forall v w, enc_continue_response v w -> forall rest, parse (w ++ rest) = ROk rest v (nlen w).
+Print Assumptions c03_continue_roundtrip.
 
 (* status responses `* OK/NO/BAD/PREAUTH/BYE [code] text` (codes ALERT, PARSE, READ-ONLY, READ-WRITE, TRYCREATE,
    UIDVALIDITY, UIDNEXT, UNSEEN, HIGHESTMODSEQ): the separator after the code is cut exactly once, the text is verbatim *)
@@ -86,3 +141,9 @@ Check c03_non_vacuous : match parse (rt_sample ++ bs "* 1 EXISTS") with
       rest = bs "* 1 EXISTS" /\ lookup "subject" fs = VSome (VBytes [41; 13; 10])
   | _ => False end.
 Print Assumptions c03_non_vacuous.
+
+(* all of the above as one statement: Spec.enc_response is the union of the relations *)
+Theorem c03_response_roundtrip : forall v w, enc_response v w -> forall rest, parse (w ++ rest) = ROk rest v (nlen w).
+Proof. exact response_roundtrip. Qed.
+Check c03_response_roundtrip : forall v w, enc_response v w -> forall rest, parse (w ++ rest) = ROk rest v (nlen w).
+Print Assumptions c03_response_roundtrip.
